@@ -50,3 +50,32 @@ OPAQUE = frozenset("""
     probables.hashes.hash_with_depth_int.<locals>.hashing_func probables.utilities.get_x_bits probables.utilities.is_hex_string
     probables.utilities.is_valid_file
 """.split())
+
+# The single-return functions of the pinned tree (wrappers, property getters).  They are looked through - but only while they still
+# are what a rule can see through at no cost: if a later change turns one of them into a function with several paths (say, a memo in
+# front of the computation), calls to it are kept as calls, exactly as for the anchors above.
+SIMPLE = frozenset("""
+    Bitarray.__getitem__ Bitarray.as_string Bitarray.bitarray Bitarray.is_bit_set Bitarray.num_bits_set Bitarray.size Bitarray.size_bytes
+    BloomFilter.__contains__ BloomFilter._get_element BloomFilter.bloom BloomFilter.bloom_length BloomFilter.check BloomFilter.elements_added
+    BloomFilter.elements_added.setter BloomFilter.estimated_elements BloomFilter.export_size BloomFilter.false_positive_rate
+    BloomFilter.hash_function BloomFilter.is_on_disk BloomFilter.number_bits BloomFilter.number_hashes BloomFilterOnDisk.__bytes__
+    BloomFilterOnDisk._get_element CountMinSketch.__contains__ CountMinSketch.__mean_query CountMinSketch.__min_query CountMinSketch.add
+    CountMinSketch.check CountMinSketch.confidence CountMinSketch.depth CountMinSketch.elements_added CountMinSketch.error_rate CountMinSketch.hashes
+    CountMinSketch.remove CountMinSketch.width CountingBloomFilter._cnt_number_bits_set CountingBloomFilter.add CountingBloomFilter.check
+    CountingBloomFilter.check_alt CountingBloomFilter.remove CountingCuckooBin.__contains__ CountingCuckooBin.__repr__ CountingCuckooBin.__str__
+    CountingCuckooBin.count CountingCuckooBin.finger CountingCuckooBin.get_array CountingCuckooFilter.buckets CountingCuckooFilter.load_factor
+    CountingCuckooFilter.unique_elements CuckooFilter.__contains__ CuckooFilter.__str__ CuckooFilter._calc_error_rate
+    CuckooFilter._calc_fingerprint_size CuckooFilter.auto_expand CuckooFilter.auto_expand.setter CuckooFilter.bucket_size CuckooFilter.buckets
+    CuckooFilter.capacity CuckooFilter.elements_added CuckooFilter.error_rate CuckooFilter.expansion_rate CuckooFilter.expansion_rate.setter
+    CuckooFilter.fingerprint_size CuckooFilter.fingerprint_size_bits CuckooFilter.load_factor CuckooFilter.max_swaps
+    ExpandingBloomFilter.__contains__ ExpandingBloomFilter.elements_added ExpandingBloomFilter.estimated_elements ExpandingBloomFilter.expansions
+    ExpandingBloomFilter.false_positive_rate ExpandingBloomFilter.hash_function HeavyHitters.add HeavyHitters.heavy_hitters
+    HeavyHitters.number_heavy_hitters MMap.__enter__ MMap.closed MMap.map MMap.path MMap.read ProbablesBaseException.__str__
+    QuotientFilter.__contains__ QuotientFilter._is_cluster_start QuotientFilter._is_empty_element QuotientFilter._is_run_start
+    QuotientFilter.auto_expand QuotientFilter.auto_expand.setter QuotientFilter.bits_per_elm QuotientFilter.elements_added QuotientFilter.get_hashes
+    QuotientFilter.load_factor QuotientFilter.max_load_factor QuotientFilter.max_load_factor.setter QuotientFilter.num_elements
+    QuotientFilter.quotient QuotientFilter.remainder QuotientFilter.size RotatingBloomFilter.current_queue_size RotatingBloomFilter.max_queue_size
+    StreamThreshold.add StreamThreshold.meets_threshold StreamThreshold.remove StreamThreshold.threshold
+    probables.blooms.bloom._verify_not_type_mismatch probables.blooms.countingbloom._verify_not_type_mismatch probables.hashes.default_md5
+    probables.hashes.default_sha256 probables.utilities.resolve_path
+""".split())
